@@ -209,6 +209,15 @@ Theorem default_order_value maxdeg : gen_intorder None maxdeg = 2 * maxdeg.
 Proof. reflexivity. Qed.
 Theorem explicit_order_respected k maxdeg : gen_intorder (Some k) maxdeg = k.
 Proof. reflexivity. Qed.
+(* an explicitly given rule is the rule of the basis whatever intorder says (docstrings: intorder is "not used if
+   quadrature is specified"); without one the table is asked for the order above *)
+Theorem explicit_quadrature_wins (A : Type) (r : A) io maxdeg (table : nat -> A) :
+  gen_rule_choice (Some r) io maxdeg table = r.
+Proof. destruct io; reflexivity. Qed.
+Theorem no_quadrature_uses_order (A : Type) io maxdeg (table : nat -> A) :
+  gen_rule_choice None io maxdeg table = table (gen_intorder io maxdeg).
+Proof. destruct io; reflexivity. Qed.
+
 Theorem default_order_covers_mass (maxdeg : nat) (a b : list nat) :
   length a = length b -> list_sum a <= maxdeg -> list_sum b <= maxdeg ->
   list_sum (exp_add a b) <= gen_intorder None maxdeg.
